@@ -325,6 +325,11 @@ func main() {
 	sp(&ctor{name: "OutNG_K0K1", resultObj: true, outs: []out{{typ: "K0", key: "k", group: "g"}, {typ: "K1"}}})
 	sp(&ctor{name: "OutNG_K1S0", resultObj: true, outs: []out{{typ: "K1"}, {typ: "S0", key: "k", group: "g"}}})
 
+	// REQUIRED keyed dependencies on the built-in types: only the unkeyed identity is a built-in
+	// injectable, and reserved types cannot be registered, so these can never be satisfied
+	sp(&ctor{name: "BIkeyedReq_S6", inStyle: true, deps: []dep{{target: "Context", form: "FKeyed", key: "k"}}, outs: simpleOut("S6"), hasErr: true})
+	sp(&ctor{name: "BIkeyedReq_S7", inStyle: true, deps: []dep{mkDep("", "FScope"), {target: "Scope", form: "FKeyed", key: "k"}}, outs: simpleOut("S7")})
+	sp(&ctor{name: "BIkeyedReq_S5", inStyle: true, deps: []dep{{target: "Provider", form: "FKeyed", key: "k"}, mkDep("", "FContext")}, outs: simpleOut("S5")})
 	writeTypes()
 	writeCtors()
 }
